@@ -398,6 +398,14 @@ def load_bench(b, ops, replacement=True):
     return m
 
 
+def stable_hash(snapshot):
+    """A hash of a content snapshot that does not depend on PYTHONHASHSEED."""
+    from simkit.core import h64
+
+    items = sorted((n.to_text().lower(), k, ttl, tuple(sorted((t, w.hex()) for t, w in rids))) for n, k, ttl, rids in snapshot)
+    return h64(items) & 0xFFFFFFFF
+
+
 def describe(op):
     return " ".join(f"{k}={v}" for k, v in op.items())
 
